@@ -140,6 +140,7 @@ type runInfo struct {
 	batches   int // non-empty batches processed
 	rekeys    int // batches after which a previously existing endpoint key had disappeared (re-keying)
 	restarts  int // restarts performed while the state was non-empty
+	resets    int // restarts performed at all (each one rebuilds the URL tree from the known endpoints)
 	silent    int // convergences of the tree inside NormalizeURL (not reported to ConvergeAggregation)
 	loud      int // convergences reported to ConvergeAggregation
 	miss      int // NormalizeURL lookups that missed the URL just inserted
@@ -258,6 +259,7 @@ func runStateful(c kase, cuts []int, restart []bool, dir string, check func(a *d
 			if err := check(persisted, b[0], info.rejected, fmt.Sprintf("state file before restart at record %d", b[0])); err != nil {
 				return nil, info, err
 			}
+			info.resets++
 			if len(persisted.Endpoints) > 0 {
 				info.restarts++
 			}
@@ -1242,8 +1244,8 @@ func evaluate(c kase, dir string) (o outcome) {
 		o.violation = violation
 		return
 	}
-	if o.infoS.restarts == 0 {
-		// no state was ever reloaded into a fresh tree: the file must show the same statistics
+	if o.infoS.resets == 0 {
+		// same batches, same tree history: the file must show the same statistics
 		if d := diffAgg(o.partB, *o.stateful, true); d != "" {
 			msg := fmt.Sprintf("state file written by Run differs from the statistics computed for the same batches: %s", d)
 			if isSilentConvergence(o.infoB, o.infoS) {
